@@ -873,8 +873,29 @@ def run(tier):
     omods = [m for m in mods if srcinfo[m][0] != "V"]
     chunks = [("audit", fuel, omods[i:i + 4]) for i in range(0, len(omods), 4)] + [("auditout", fuel, vmods[i:i + 2]) for i in range(0, len(vmods), 2)]
     vbad = {}          # cause key -> [(case, what)]
-    vlines = 0
+    vstat = {"lines": 0}
     vdistinct = set()
+
+    def judge_v(items, sec, f):
+        """verdict for the cases of one value-shape module that ran to their end: audit failures noted between the
+        lines they printed, printed values against the values they must read"""
+        for c in items:
+            got = sec.get(c["name"])
+            want = c["expect"] + ["0"]
+            vstat["lines"] += len(want)
+            vdistinct.update(want)
+            if got == want:
+                continue
+            if got is None:
+                raise common.HarnessError("case %s of %s printed nothing" % (c["name"], f))
+            fl = [l for l in got if l.startswith("!!FAIL")]
+            if fl:
+                m = re.search(r"kind=(\S+) (.*)", fl[0])
+                vbad.setdefault("audit:%s:%s" % (m.group(1), re.sub(r"\d+", "N", m.group(2))[:80]), []).append((c, "heap invariant broken (%s): %s" % (m.group(1), m.group(2))))
+            else:
+                d = [(a, b) for a, b in zip(want, got) if a != b]
+                a, b = d[0] if d else ("%d lines" % len(want), "%d lines" % len(got))
+                vbad.setdefault("value:%s:%s" % (c["dims"][0], c["dims"][1]), []).append((c, "printed %r where %r is the value it read" % (b[:60], a[:60])))
     total_steps = total_audits = 0
     maxreach = 0
     nprog = 0
@@ -896,11 +917,13 @@ def run(tier):
                     pre = parse(r1[2])[1].get(f, [])
                     if pre:        # the audit saw the broken invariant before the run died: say where
                         sig += "; first audit failure: " + pre[0].split(" ", 2)[2][:300]
-                    if kind == "V":     # the last marker printed says which case was running
+                    if kind == "V":     # the last marker printed says which case was running; the ones before it completed
                         sec = split_sections(_read(f + ".out"))
-                        last = [c for c in items if c["name"] in sec]
-                        if last:
-                            vbad.setdefault("crash:" + re.sub(r"\d+", "N", asan_summary(r1[3]))[:120], []).append((last[-1], "VM run aborted: " + sig))
+                        ran = [c for c in items if c["name"] in sec]
+                        if ran:
+                            judge_v(ran[:-1], sec, f)
+                            vbad.setdefault("crash:" + re.sub(r"\d+", "N", asan_summary(r1[3]))[:120], []).append((ran[-1], "VM run aborted: " + sig))
+                            rep.count("shape_cases_not_run_after_an_abort", len(items) - len(ran))
                             continue
                     rep.violation("crash:" + re.sub(r"\d+", "N", sig)[:160], {"program.nano": src, "module.nvm": open(f, "rb").read(), "stderr.txt": r1[3][-20000:], "stdout.txt": r1[2][-4000:]},
                                   "VM run aborted (%s): %s" % (crashes.get(f, "no result"), sig),
@@ -913,24 +936,7 @@ def run(tier):
             if r["rc"] != 0:
                 raise common.HarnessError("enumerated program fails at run time (rc=%d): %s" % (r["rc"], f))
             if kind == "V":
-                sec = split_sections(_read(f + ".out"))
-                for c in items:
-                    got = sec.get(c["name"])
-                    want = c["expect"] + ["0"]
-                    vlines += len(want)
-                    vdistinct.update(want)
-                    if got == want:
-                        continue
-                    if got is None:
-                        raise common.HarnessError("case %s of %s printed nothing" % (c["name"], f))
-                    fl = [l for l in got if l.startswith("!!FAIL")]
-                    if fl:
-                        m = re.search(r"kind=(\S+) (.*)", fl[0])
-                        vbad.setdefault("audit:%s:%s" % (m.group(1), re.sub(r"\d+", "N", m.group(2))[:80]), []).append((c, "heap invariant broken (%s): %s" % (m.group(1), m.group(2))))
-                    else:
-                        d = [(a, b) for a, b in zip(want, got) if a != b]
-                        a, b = d[0] if d else ("%d lines" % len(want), "%d lines" % len(got))
-                        vbad.setdefault("value:%s:%s" % (c["dims"][0], c["dims"][1]), []).append((c, "printed %r where %r is the value it read" % (b[:60], a[:60])))
+                judge_v(items, split_sections(_read(f + ".out")), f)
                 continue
             if f in fails:
                 first = fails[f][0]
@@ -968,6 +974,7 @@ def run(tier):
     ntc = len(vcases) - npc
     rep.coverage["shape_cases_P_producer_x_kind_x_derived_x_order"] = npc
     rep.coverage["shape_cases_T_access_x_kind_x_holder_x_sink"] = ntc
+    vlines = vstat["lines"]
     rep.coverage["shape_printed_values_compared"] = vlines
     rep.coverage["shape_distinct_expected_lines"] = len(vdistinct)
     rep.coverage["shape_cases_failing"] = sum(len(v) for v in vbad.values())
